@@ -251,7 +251,7 @@ fn gen_cases(ctx: &mut Ctx) -> Vec<RowCase> {
     let mut rng = ctx.rng.fork(1);
     // systematic part: every (op, ft, bpp, first/later) x lengths around the 32-byte chunk and bpp multiples
     let mut lens: Vec<usize> = (1..=12).collect();
-    lens.extend_from_slice(&[15, 16, 17, 23, 24, 25, 30, 31, 32, 33, 34, 36, 40, 47, 48, 49, 63, 64, 65, 66, 72, 95, 96, 97, 98, 128, 129, 130, 191, 192, 200]);
+    lens.extend_from_slice(&[15, 16, 17, 23, 24, 25, 30, 31, 32, 33, 34, 36, 40, 47, 48, 49, 63, 64, 65, 66, 72, 95, 96, 97, 98, 128, 129, 130, 191, 192, 200, 1023, 1024, 1025, 1056, 1500, 2048, 2049, 4100]);
     let per = if ctx.quick() { 1 } else { 6 };
     for op in ["unfilter", "filter"] {
         for ft in 0..=(if op == "filter" { 5u8 } else { 4 }) {
